@@ -117,7 +117,44 @@ def history():
             "user_float_array": [impl.dtname(user_f.dtype), repr(user_f.to_numpy().tolist())]}
 
 
-out = {"fp_before": fingerprint()}
+def read_side_effects():
+    """Reading an array (repr / str / to_numpy / shape / build) must not alter it, its fields, or the caller's buffers."""
+    bad = []
+    cases = {
+        "nint32": (np.array([1, 2, 3, 4], dtype=np.int32), [False, True, False, True]),
+        "nfloat64": (np.array([1.5, np.nan, -3.0, 7.25]), [False, True, True, False]),
+        "nbool": (np.array([True, True, False, True]), [False, True, False, False]),
+        "nutf8": (np.array(["a", "junk", "c", "zz"]), [False, True, False, True]),
+        "nuint8": (np.array([[1, 255], [7, 9]], dtype=np.uint8), [[True, False], [False, True]]),
+        "int64": (np.array([5, 6, 7], dtype=np.int64), None),
+        "utf8": (np.array(["x", "yy"]), None),
+    }
+    for name, (data, mask) in cases.items():
+        try:
+            src = np.ma.masked_array(data.copy(), mask=mask) if mask is not None else data.copy()
+            keep = np.ma.getdata(src).copy()
+            a = ndx.asarray(src)
+            fields = (lambda: {"v": a.values + a.values if name not in ("nbool", "nutf8") else a.values, "n": a.null, "a": a}) if mask is not None else (lambda: {"a": a, "d": a[...]})
+            b1 = ndx.build({}, fields()).SerializeToString()
+            v1 = (a.values if mask is not None else a).to_numpy().copy()
+            for _ in range(2):
+                repr(a); str(a); a.to_numpy(); a.shape; a.ndim; a.dtype
+                if mask is not None:
+                    a.null.to_numpy(); repr(a.values)
+                ndx.build({}, {"a": a})
+            v2 = (a.values if mask is not None else a).to_numpy()
+            b2 = ndx.build({}, fields()).SerializeToString()
+            same_v = np.array_equal(v1.astype(str), v2.astype(str))
+            same_src = np.array_equal(np.ma.getdata(src).astype(str), keep.astype(str))
+            if b1 != b2 or not same_v or not same_src:
+                bad.append({"dtype": name, "export_changed": b1 != b2, "field_values_changed": not same_v, "callers_buffer_changed": not same_src,
+                            "before": v1.astype(str).tolist(), "after": v2.astype(str).tolist()})
+        except Exception as e:
+            bad.append({"dtype": name, "raised": f"{type(e).__name__}: {str(e)[:150]}"})
+    return bad
+
+
+out = {"fp_before": fingerprint(), "read_side_effects": read_side_effects()}
 if cfg["history_len"]:
     out["history"] = history()
 out["fp_after_history"] = fingerprint()
@@ -174,6 +211,11 @@ def run(ctx: common.Ctx):
             continue
         if not m["twice_equal"]:
             ctx.violation(f"build/{name if not name.startswith('prog') else 'program'}/two-builds-in-a-row-differ", f"{name}: two consecutive builds differ (and/or reading values changed the export)", {"model": name, **m})
+    for label, r in [("fresh", base)] + runs:
+        for b in r.get("read_side_effects", []):
+            ctx.case(("read-side-effects", label, b["dtype"]), True)
+            ctx.violation(f"read/{b['dtype']}/{'raises' if 'raised' in b else 'alters-array-or-export'}",
+                          f"{label}: repr/str/to_numpy/shape/build of a data-holding {b['dtype']} array changed it: {b}"[:500], {"run": label, **b})
     if base["fp_before"] != base["fp_after_builds"]:
         ctx.violation("constants/changed-by-builds", "library constants / dtype singletons changed by building and reading", {"before": base["fp_before"], "after": base["fp_after_builds"]})
     for label, r in runs:
